@@ -339,9 +339,9 @@ class Gen:
             if self.allow_async and r.random() < 0.3:
                 self.f("async")
                 return L.a_fail(self.tag())
-            return self.t("raiser")(r.choice(KINDS), self.tag())
+            return self.t(r.choice(["raiser", "raiser", "s_raiser"]))(r.choice(KINDS), self.tag())
         if k == 4:
-            return self.t("fail_after")(r.randrange(0, 3), r.choice(KINDS))
+            return self.t(r.choice(["fail_after", "fail_after", "s_fail_after"]))(r.randrange(0, 3), r.choice(KINDS))
         if k == 5:
             x = self.lit()
             return self.t("maybe_fail")(x, x)
@@ -365,7 +365,7 @@ class Gen:
             if self.allow_async and r.random() < 0.3:
                 self.f("async")
                 return L.a_inc(g(d - 1))
-            return self.t("inc")(g(d - 1))
+            return self.t(r.choice(["inc", "inc", "inc", "s_inc"]))(g(d - 1))
         if k == 2:
             self.f("kwarg")
             return self.t("add")(g(d - 1), b=g(d - 1))
